@@ -149,7 +149,7 @@ pub fn run(args: &Args) {
     let paths = [
         "cpu48", "cpu128", "cpu128_c000_bank5", "cpu128_shadow", "ldir48", "fastload48", "sna48", "sna128",
         "sna128_shadow", "szx48", "szx128_compressed", "szx128_shadow", "scr48", "scr128", "poke48", "poke128_shadow",
-        "fastload128_c000_bank5", "fastload128_shadow", "cpu128_locked", "cpu128_shadow_locked",
+        "fastload128_c000_bank5", "fastload128_shadow", "cpu128_locked", "cpu128_shadow_locked", "cpu48_snapshot_taken",
     ];
     for round in 0..rounds {
         for (pi, path) in paths.iter().enumerate() {
@@ -185,6 +185,19 @@ pub fn run(args: &Args) {
                     cpu_out(&mut emu, 0x7FFD, keep | 0x20);
                     cpu_out(&mut emu, 0x7FFD, keep ^ 8);
                     cpu_out(&mut emu, 0x3FFD, (keep ^ 8) | 0x07);
+                }
+                "cpu48_snapshot_taken" => {
+                    // the host takes an SNA snapshot while the program's stack lies in the display file (the 48K format keeps
+                    // PC on the stack for a moment): memory is as before, and so must the picture be
+                    for (o, b) in scr.iter().enumerate() {
+                        cpu_write(&mut emu, 0x4000 + o as u16, *b);
+                    }
+                    for sp in [0x4802u16, 0x5A02, 0x4001, 0x5B00] {
+                        emu.verif_cpu().regs.set_sp(sp);
+                        let buf = std::rc::Rc::new(std::cell::RefCell::new(Vec::new()));
+                        let rec = VRecorder { out: buf.clone(), limit: usize::MAX };
+                        emu.save_snapshot(rustzx_core::host::SnapshotRecorder::Sna(rec)).unwrap();
+                    }
                 }
                 "cpu128_c000_bank5" => {
                     cpu_out(&mut emu, 0x7FFD, 5);
